@@ -1,10 +1,258 @@
+import BoboVerif.Model.Json
 import BoboVerif.Drivers.Util
-/- driver stub for the Json model (to be replaced by the real line protocol). -/
+/-
+driver for M-Json (`bobodrv json`).
+
+The model's encoders are run over a *concrete* `dumps` that reproduces Python's
+`json.dumps` defaults (`", "` / `": "` separators, `ensure_ascii`), so the line printed
+for a record is the exact text the real `to_json_str()` / `_outgoing_to_json()` must
+produce: nesting, key order, and which values are strings-containing-JSON (with their
+escaping doubled at every BoboJSONable boundary) are all compared at once.
+
+ops (one per line, tokens separated by single spaces):
+  reset                         forget the stored records                      -> ok
+  def <Run>                     store a run record                             -> its to_json_str() text
+  ev <Ev>                       an event on its own                            -> its to_json_str() text
+  hist <Hist>                   a history on its own                           -> its to_json_str() text
+  msg <ixs> <ixs> <ixs>         completed / halted / updated as index lists
+                                (`0,2,1` or `-`) over the stored records       -> the _outgoing_to_json text
+  dicts <ixs> <ixs> <ixs>       number of dicts in the outer parse of that msg -> a number (object-hook calls)
+  split <s>                     _split_plaintext                                -> `ok <s> <s> <s> <s> <s>` | `err`
+
+record syntax (prefix form):
+  Run  := R <s:run_id> <s:phenomenon> <s:pattern> <int:block_index> <Hist>
+  Hist := H <k> ( <s:group> <m> <Ev>^m )^k
+  Ev   := S <s:id> <int:ts> <J>
+        | C <s:id> <int:ts> <J> <s:phen> <s:pat> <Hist>
+        | A <s:id> <int:ts> <J> <s:phen> <s:pat> <s:act> <0|1>
+  J    := n | t | f | i<int> | d<float repr> | <s> | a <k> <J>^k | o <k> ( <s> <J> )^k
+  s    := x followed by 6 lowercase hex digits per code point (`x` alone = "")
+-/
 namespace Bobo.Drv.Json
+open Bobo.Json
+
+/-! ### Python's `json.dumps` defaults -/
+
+def hexDigit (n : Nat) : Char :=
+  if n < 10 then Char.ofNat (48 + n) else Char.ofNat (87 + n)
+
+def hex4 (n : Nat) : String :=
+  String.ofList [hexDigit (n / 4096 % 16), hexDigit (n / 256 % 16), hexDigit (n / 16 % 16), hexDigit (n % 16)]
+
+/-- `ESCAPE_ASCII` of json.encoder. -/
+def escChar (c : Char) : String :=
+  if c = '"' then "\\\""
+  else if c = '\\' then "\\\\"
+  else if c = '\n' then "\\n"
+  else if c = '\r' then "\\r"
+  else if c = '\t' then "\\t"
+  else if c.toNat = 8 then "\\b"
+  else if c.toNat = 12 then "\\f"
+  else if 32 ≤ c.toNat ∧ c.toNat ≤ 126 then String.singleton c
+  else if c.toNat < 65536 then "\\u" ++ hex4 c.toNat
+  else
+    let n := c.toNat - 65536
+    "\\u" ++ hex4 (55296 + n / 1024) ++ "\\u" ++ hex4 (56320 + n % 1024)
+
+def pyStr (s : String) : String :=
+  "\"" ++ s.toList.foldl (fun acc c => acc ++ escChar c) "" ++ "\""
+
+mutual
+def pyDumps : JVal → String
+  | .null => "null"
+  | .bool true => "true"
+  | .bool false => "false"
+  | .int i => toString i
+  | .float r => r
+  | .str s => pyStr s
+  | .arr xs => "[" ++ dumpsL xs ++ "]"
+  | .obj kvs => "{" ++ dumpsKV kvs ++ "}"
+def dumpsL : List JVal → String
+  | [] => ""
+  | x :: rest =>
+    match rest with
+    | [] => pyDumps x
+    | _ :: _ => pyDumps x ++ ", " ++ dumpsL rest
+def dumpsKV : List (String × JVal) → String
+  | [] => ""
+  | (k, x) :: rest =>
+    match rest with
+    | [] => pyStr k ++ ": " ++ pyDumps x
+    | _ :: _ => pyStr k ++ ": " ++ pyDumps x ++ ", " ++ dumpsKV rest
+end
+
+/-! ### line syntax -/
+
+def hexVal? (c : Char) : Option Nat :=
+  if '0' ≤ c ∧ c ≤ '9' then some (c.toNat - 48)
+  else if 'a' ≤ c ∧ c ≤ 'f' then some (c.toNat - 87)
+  else none
+
+def decodeCps : List Char → Option (List Char)
+  | [] => some []
+  | a :: b :: c :: d :: e :: f :: rest =>
+    match hexVal? a, hexVal? b, hexVal? c, hexVal? d, hexVal? e, hexVal? f with
+    | some a, some b, some c, some d, some e, some f =>
+      let n := ((((a * 16 + b) * 16 + c) * 16 + d) * 16 + e) * 16 + f
+      if n < 55296 ∨ (57343 < n ∧ n < 1114112) then
+        match decodeCps rest with
+        | some cs => some (Char.ofNat n :: cs)
+        | none => none
+      else none
+    | _, _, _, _, _, _ => none
+  | _ => none
+
+def str? (tok : String) : Option String :=
+  match tok.toList with
+  | 'x' :: hs => (decodeCps hs).map String.ofList
+  | _ => none
+
+def hex6 (n : Nat) : List Char :=
+  [hexDigit (n / 1048576 % 16), hexDigit (n / 65536 % 16), hexDigit (n / 4096 % 16),
+   hexDigit (n / 256 % 16), hexDigit (n / 16 % 16), hexDigit (n % 16)]
+
+def encStr (cs : List Char) : String :=
+  String.ofList ('x' :: cs.flatMap (fun c => hex6 c.toNat))
+
+abbrev Toks := List String
+
+def repeatP {α : Type} (p : Toks → Option (α × Toks)) : Nat → Toks → Option (List α × Toks)
+  | 0, ts => some ([], ts)
+  | k + 1, ts =>
+    match p ts with
+    | none => none
+    | some (x, ts') =>
+      match repeatP p k ts' with
+      | none => none
+      | some (xs, ts'') => some (x :: xs, ts'')
+
+def parseJ : Nat → Toks → Option (JVal × Toks)
+  | 0, _ => none
+  | _, [] => none
+  | n + 1, tok :: rest =>
+    if tok = "n" then some (.null, rest)
+    else if tok = "t" then some (.bool true, rest)
+    else if tok = "f" then some (.bool false, rest)
+    else if tok = "a" then
+      match rest with
+      | k :: rest' =>
+        match k.toNat? with
+        | some k => (repeatP (parseJ n) k rest').map (fun (xs, r) => (.arr xs, r))
+        | none => none
+      | [] => none
+    else if tok = "o" then
+      match rest with
+      | k :: rest' =>
+        match k.toNat? with
+        | some k =>
+          (repeatP (fun ts => match ts with
+              | key :: r =>
+                match str? key with
+                | some ks => (parseJ n r).map (fun (v, r') => ((ks, v), r'))
+                | none => none
+              | [] => none) k rest').map (fun (kvs, r) => (.obj kvs, r))
+        | none => none
+      | [] => none
+    else
+      match tok.toList with
+      | 'i' :: ds => (String.ofList ds).toInt?.map (fun i => (.int i, rest))
+      | 'd' :: ds => if ds.isEmpty then none else some (.float (String.ofList ds), rest)
+      | 'x' :: hs => (decodeCps hs).map (fun cs => (.str (String.ofList cs), rest))
+      | _ => none
+
+mutual
+def parseEv : Nat → Toks → Option (Ev × Toks)
+  | 0, _ => none
+  | _ + 1, "S" :: id :: ts :: rest =>
+    match str? id, ts.toInt?, parseJ (rest.length + 1) rest with
+    | some id, some ts, some (d, r) => some (.simple id ts d, r)
+    | _, _, _ => none
+  | _ + 1, "A" :: id :: ts :: rest =>
+    match str? id, ts.toInt?, parseJ (rest.length + 1) rest with
+    | some id, some ts, some (d, ph :: pat :: act :: ok :: r) =>
+      match str? ph, str? pat, str? act with
+      | some ph, some pat, some act =>
+        if ok = "1" then some (.action id ts d ph pat act true, r)
+        else if ok = "0" then some (.action id ts d ph pat act false, r)
+        else none
+      | _, _, _ => none
+    | _, _, _ => none
+  | n + 1, "C" :: id :: ts :: rest =>
+    match str? id, ts.toInt?, parseJ (rest.length + 1) rest with
+    | some id, some ts, some (d, ph :: pat :: r) =>
+      match str? ph, str? pat, parseHist n r with
+      | some ph, some pat, some (h, r') => some (.complex id ts d ph pat h, r')
+      | _, _, _ => none
+    | _, _, _ => none
+  | _ + 1, _ => none
+def parseHist : Nat → Toks → Option (Groups × Toks)
+  | 0, _ => none
+  | n + 1, "H" :: k :: rest =>
+    match k.toNat? with
+    | some k =>
+      (repeatP (fun ts => match ts with
+          | g :: m :: r =>
+            match str? g, m.toNat? with
+            | some g, some m => (repeatP (parseEv n) m r).map (fun (es, r') => ((g, es), r'))
+            | _, _ => none
+          | _ => none) k rest).map (fun (gs, r) => (Groups.ofList gs, r))
+    | none => none
+  | _ + 1, _ => none
+end
+
+def parseRun (ts : Toks) : Option Run :=
+  match ts with
+  | "R" :: rid :: ph :: pat :: idx :: rest =>
+    match str? rid, str? ph, str? pat, idx.toInt?, parseHist (rest.length + 1) rest with
+    | some rid, some ph, some pat, some idx, some (h, []) => some ⟨rid, ph, pat, idx, h⟩
+    | _, _, _, _, _ => none
+  | _ => none
+
+def parseIxs (runs : Array Run) (tok : String) : Option (List Run) :=
+  if tok = "-" then some []
+  else mapMO (fun s => match s.toNat? with
+      | some i => runs[i]?
+      | none => none) (tok.splitOn ",")
 
 structure DS where
-  dummy : Unit := ()
+  runs : Array Run := #[]
 
-def step (d : DS) (_line : String) : DS × String := (d, "unimplemented")
+def toks (line : String) : Toks := line.splitOn " "
+
+def step (d : DS) (line : String) : DS × String :=
+  match toks line with
+  | ["reset"] => ({ runs := #[] }, "ok")
+  | "def" :: rest =>
+    match parseRun rest with
+    | some r => ({ d with runs := d.runs.push r }, runText pyDumps r)
+    | none => (d, "bad-op")
+  | "ev" :: rest =>
+    match parseEv (rest.length + 1) rest with
+    | some (e, []) => (d, evText pyDumps e)
+    | _ => (d, "bad-op")
+  | "hist" :: rest =>
+    match parseHist (rest.length + 1) rest with
+    | some (h, []) => (d, histText pyDumps h)
+    | _ => (d, "bad-op")
+  | ["msg", c, h, u] =>
+    match parseIxs d.runs c, parseIxs d.runs h, parseIxs d.runs u with
+    | some c, some h, some u => (d, msgText pyDumps c h u)
+    | _, _, _ => (d, "bad-op")
+  | ["dicts", c, h, u] =>
+    match parseIxs d.runs c, parseIxs d.runs h, parseIxs d.runs u with
+    | some c, some h, some u => (d, toString (encodeMsg pyDumps c h u).dicts)
+    | _, _, _ => (d, "bad-op")
+  | ["split", s] =>
+    match str? s with
+    | some p =>
+      match splitPlain p.toList with
+      | some (urn, key, ty, fl, json) =>
+        match parseDec ty, parseDec fl with
+        | some ty, some fl =>
+          (d, "ok " ++ encStr urn ++ " " ++ encStr key ++ " " ++ toString ty ++ " " ++ toString fl ++ " " ++ encStr json)
+        | _, _ => (d, "err")
+      | none => (d, "err")
+    | none => (d, "bad-op")
+  | _ => (d, "bad-op")
 
 end Bobo.Drv.Json
